@@ -8,7 +8,8 @@
    Argument order: qnmatch name pattern, as in the source. *)
 From Coq Require Import NArith List Bool.
 From PydoctorVerif Require Import Base.Sexp Spec.ReFrag Spec.Glob Spec.PrivacySpec Model.QnMatch Model.Privacy
-  Proofs.QnMatchProofs Proofs.ReFragProofs Proofs.PrivacyProofs.
+  Model.QnMatchIR Model.PrivacyIR Gen.QnMatchCode Gen.PrivacyCode Proofs.QnMatchProofs Proofs.ReFragProofs
+  Proofs.PrivacyProofs Proofs.QnMatchIRProofs Proofs.PrivacyIRProofs.
 Import ListNotations.
 Local Open Scope N_scope.
 
@@ -307,3 +308,43 @@ Theorem C13_documentable_partial :
   forall opts c o, (o_is_module o = false \/ o_name o <> main_name) ->
     doc_privacyClass opts c o = system_privacyClass opts c o.
 Proof. exact documentable_not_main. Qed.
+
+(* ---------------------------------------------------------------------------------------------------------
+   Tie to the source.  Gen/QnMatchCode.v holds the BODY of pydoctor/qnmatch.py : translate() translated statement by
+   statement from /repo's CURRENT source (harness/gen/gen_c13_code.py, fail-closed, rerun on every check) into the
+   imperative language of Model/QnMatchIR.v.  Interpreting THAT code gives, for every pattern, the text (or the
+   exception) of the hand-written model the theorems above are about -- and no `while` of it runs out of fuel. *)
+Theorem C13_code_translate_is_model :
+  forall pat : text, run_translate translate_code pat = translate pat.
+Proof. exact run_translate_eq. Qed.
+
+(* hence the text the translated code returns is the rendering of the lexed pattern ... *)
+Theorem C13_code_translate_text :
+  forall pat, run_translate translate_code pat = Ok (t_prefix ++ render (lex pat) ++ t_suffix).
+Proof. exact (fun pat => eq_trans (run_translate_eq pat) (translate_render pat)). Qed.
+
+(* ... and the property itself, stated on the translated code: compiling what it returns and matching a name answers the
+   documented meaning of the pattern, for every pattern without an inverted range and every name *)
+Theorem C13_code_translate_meaning :
+  forall pat n, wf_pattern pat = true ->
+    match_re (bind (run_translate translate_code pat) read_re) n = Ok (matches pat n).
+Proof.
+  exact (fun pat n H => eq_trans (f_equal (fun r => match_re (bind r read_re) n) (run_translate_eq pat)) (qnmatch_meaning pat n H)).
+Qed.
+
+(* Gen/PrivacyCode.v holds the BODY of pydoctor/model.py : System.privacyClass (cache lookup, kind test, default rule,
+   the rule loops -- inlined from the helper when privacyClass delegates to one --, cache store) translated from the
+   CURRENT source (harness/gen/gen_c13_privacy.py).  Interpreting it gives, for every rule list, cache and object, the
+   result AND the cache of the hand-written model. *)
+Theorem C13_code_privacyClass_is_model :
+  forall (opts : list rule) (c : cache) (o : obj),
+    run_privacyClass opts o privacy_code c = system_privacyClass opts c o.
+Proof. exact run_privacy_eq. Qed.
+
+(* hence the total characterisation of the precedence, stated on the translated code *)
+Theorem C13_code_privacyClass_precedence :
+  forall opts c o, o_has_kind o = true -> cache_get c (o_full o) = None ->
+    fst (run_privacyClass opts o privacy_code c) =
+    verdict_outcome (documented_verdict (text_eqb (o_full o)) wf_pattern (fun m => matches m (o_full o)) opts
+                                        (default_privacy (o_name o))).
+Proof. exact code_privacy_precedence. Qed.
